@@ -53,6 +53,7 @@ package remote
 
 //@ func (*flowControlCache).newMeterFlowControl props C05, C06
 //@   trusted "builds the limiter for the schema (NewFlowControl, proved) inside a meter wrapper that forwards Type() to it"
+//@   requires [acc] (schema.GlobalMaxRequestsInflight != nil ==> schema.MaxRequestsInflight != nil) && (schema.GlobalTokenBucket != nil ==> schema.TokenBucket != nil)
 //@   modifies mifmax, tbq, tbb
 //@   ensures result != nil && fresh(result) && fcTypeOf(result) == schemaTypeOf
 
